@@ -307,10 +307,6 @@ Qed.
 
 (* ------------------------------------------------------------------ programs *)
 
-Definition valid_prog (prog : list iop) : Prop :=
-  Forall (fun o => match o with ISeek k => valid_bytes k = true | INext => True end) prog.
-Definition valid_opt (o : option bytes) : Prop := valid_bytes (ob o) = true.
-
 Definition vt_end (e : option bytes) (k : bytes) : bool :=
   match e with Some e' => bltb k e' | None => true end.
 
